@@ -4,7 +4,8 @@ use proc_macro2::{Span, TokenStream};
 use quote::{format_ident, quote, ToTokens};
 use structmeta::{Flag, NameArgs, NameValue, Parse, StructMeta};
 use syn::{
-    ext::IdentExt, parse::Parse, parse2, parse_quote, spanned::Spanned, token, Attribute, Data, DataEnum,
+    ext::IdentExt, parse::Parse, parse2, parse_quote, spanned::Spanned, token, visit_mut::VisitMut, Attribute, Data,
+    DataEnum,
     DataStruct, DeriveInput, Error, Expr, ExprLit, Field, Fields, Ident, Index, ItemEnum,
     ItemStruct, Lit, Meta, Path, Result, Type, Variant,
 };
@@ -12,7 +13,7 @@ use syn::{
 use crate::{
     bound::{Bound, Bounds, WhereClauseBuilder},
     common::BinaryOp,
-    syn_utils::expand_self,
+    syn_utils::{expand_self, DropTrailingPlus},
 };
 
 use self::compare_op::{
@@ -61,9 +62,15 @@ fn build_from_derive_input(item: DeriveInput) -> Result<TokenStream> {
     let mut kinds = HelperAttributeKinds::new(true);
     match &item.data {
         Data::Struct(data) => {
-            build_by_item_struct_core(None, &to_item_struct(&item, data), &mut kinds)
+            let mut item = to_item_struct(&item, data);
+            DropTrailingPlus.visit_item_struct_mut(&mut item);
+            build_by_item_struct_core(None, &item, &mut kinds)
         }
-        Data::Enum(data) => build_by_item_enum_core(None, &to_item_enum(&item, data), &mut kinds),
+        Data::Enum(data) => {
+            let mut item = to_item_enum(&item, data);
+            DropTrailingPlus.visit_item_enum_mut(&mut item);
+            build_by_item_enum_core(None, &item, &mut kinds)
+        }
         Data::Union(_) => bail!(Span::call_site(), "does not support union types"),
     }
 }
@@ -92,7 +99,9 @@ fn to_item_enum(item: &DeriveInput, data: &DataEnum) -> ItemEnum {
 
 pub fn build_by_item_struct(attr: TokenStream, item: &mut ItemStruct) -> Result<TokenStream> {
     let mut kinds = HelperAttributeKinds::new(true);
-    let result = build_by_item_struct_core(Some(attr), item, &mut kinds);
+    let mut source = item.clone();
+    DropTrailingPlus.visit_item_struct_mut(&mut source);
+    let result = build_by_item_struct_core(Some(attr), &source, &mut kinds);
     remove_attrs(&mut item.attrs, &kinds);
     for field in &mut item.fields {
         remove_attrs(&mut field.attrs, &kinds)
@@ -136,7 +145,9 @@ fn build_by_item_struct_core(
 }
 pub fn build_by_item_enum(attr: TokenStream, item: &mut ItemEnum) -> Result<TokenStream> {
     let mut kinds = HelperAttributeKinds::new(true);
-    let result = build_by_item_enum_core(Some(attr), item, &mut kinds);
+    let mut source = item.clone();
+    DropTrailingPlus.visit_item_enum_mut(&mut source);
+    let result = build_by_item_enum_core(Some(attr), &source, &mut kinds);
     remove_attrs(&mut item.attrs, &kinds);
     for variant in &mut item.variants {
         remove_attrs(&mut variant.attrs, &kinds);
